@@ -117,11 +117,6 @@ theorem handle_frees_after_exit (c : Cfg) (hc : c.Good) (s : St) (h : Reachable 
     · rename_i hh; have := inv.aw (by rw [hh]; rfl); exact ⟨this.1, inv.kd this.1⟩
     · simp at hs
 
-def isHEv : Ev → Bool
-  | .hAllocTsm | .hBox | .hMmap _ | .hAllocTls | .hClone _ | .hUndoTls | .hUndoStack | .hUndoBox | .hUndoTsm
-  | .hJoin | .hDrop | .hLoad _ | .hFwait _ | .hEintr | .hSpur | .hReadSlot | .hFreeTsm | .hCas _ => true
-  | _ => false
-
 /-- H never touches the block after winning the drop CAS: a detached handle has no step left -/
 theorem detached_handle_is_done (c : Cfg) (x : Inst) (e : Ev) (hh : x.h = .detached) (he : isHEv e = true) :
     stepI c x e = none := by
@@ -416,5 +411,63 @@ theorem destructor_panic_release_exactly_once (c : Cfg) (hc : c.Good) (s : St) (
 example : (run genCfg St.init dropPanicTrace).map (fun s =>
     (complete (s.inst 0) && (s.inst 0).dpanic && !(s.inst 0).bad && (s.inst 0).val == .freed,
      (s.inst 0).tsmFrees, (s.inst 0).tlsFrees, (s.inst 0).stackFrees, (s.inst 0).boxFrees)) = some (true, 1, 1, 1, 0) := by decide
+
+/-! ## nested families: spawned threads that spawn, join and drop threads themselves
+
+`Model/Thread` Part 3 attributes the handle side of an instance to the thread that executes it (`Topo.owner`), and
+lets a handle-side `set_tid_address` hit the executing thread.  For the source as it is (`Topo.Good`, re-derived by
+`gen_topo_good`) every state of a nested family — any forest, any depth — is a state of the flat family
+(`reachableN_reachable`), so the C06 theorems hold for it; the variants in which the reset sits in handle-side code
+leak the join state of the spawner (`caller_settid_breaks_join`, Props/C05). -/
+
+theorem release_exactly_once_nested (c : Cfg) (hc : c.Good) (tp : Topo) (htp : tp.Good) (s : St) (h : ReachableN c tp s) (i : Nat)
+    (hcmp : complete (s.inst i) = true) (hsp : spawnedOk (s.inst i).h = true) :
+    (s.inst i).tsm = .freed ∧ (s.inst i).tsmFrees = 1 ∧
+    (s.inst i).tls = .freed ∧ (s.inst i).tlsFrees = 1 ∧
+    (s.inst i).stack = .freed ∧ (s.inst i).stackFrees = 1 ∧
+    ((s.inst i).panicked = false → (s.inst i).box = .freed ∧ (s.inst i).boxFrees = 1) ∧
+    ((s.inst i).panicked = true → (s.inst i).box = .live ∧ (s.inst i).boxFrees = 0) ∧
+    (s.inst i).val ≠ .live :=
+  release_exactly_once c hc s (reachableN_reachable c tp htp s h) i hcmp hsp
+
+theorem never_released_twice_nested (c : Cfg) (hc : c.Good) (tp : Topo) (htp : tp.Good) (s : St) (h : ReachableN c tp s) (i : Nat) :
+    (s.inst i).tsmFrees ≤ 1 ∧ (s.inst i).tlsFrees ≤ 1 ∧ (s.inst i).stackFrees ≤ 1 ∧ (s.inst i).boxFrees ≤ 1 :=
+  never_released_twice c hc s (reachableN_reachable c tp htp s h) i
+
+theorem no_use_after_release_nested (c : Cfg) (hc : c.Good) (tp : Topo) (htp : tp.Good) (s : St) (h : ReachableN c tp s) (i : Nat) :
+    (s.inst i).bad = false :=
+  no_use_after_release c hc s (reachableN_reachable c tp htp s h) i
+
+theorem baseline_restored_nested (c : Cfg) (hc : c.Good) (tp : Topo) (htp : tp.Good) (s : St) (h : ReachableN c tp s) (n : Nat)
+    (hall : ∀ i, i < n → complete (s.inst i) = true ∨ s.inst i = Inst.init) :
+    sumTo (fun i => liveHeap (s.inst i)) n = sumTo (fun i => leaked (s.inst i)) n ∧
+    sumTo (fun i => liveMaps (s.inst i)) n = 0 :=
+  baseline_restored c hc s (reachableN_reachable c tp htp s h) n hall
+
+/-- the kernel's clear-tid write of a nested thread lands in a live block, and it does happen: a spawned thread that was
+the handle side of others still has its clear-tid address when it exits with its handle alive (T won the hand-over) -/
+theorem nested_exit_clears_own_word (c : Cfg) (hc : c.Good) (tp : Topo) (htp : tp.Good) (s : St) (h : ReachableN c tp s) (j : Nat)
+    (hd : (s.inst j).t = .dead) (hw : (s.inst j).winner = some .T) : (s.inst j).ctid = true := by
+  cases hcc : (s.inst j).ctid
+  · have := (clear_tid_intact_nested c hc tp htp s h j (by rw [hd]; simp) hcc).1
+    rw [hw] at this; cases this
+  · rfl
+
+/-- a three-level family runs to completion with a clean ledger: main → 0 → 1 → 2; 2 is dropped at once by 1 (frees its own
+block), 1 is joined by 0, 0 panics after that and is joined by main (None); one closure (0's) is what remains -/
+def threeLevelTopo : Topo := genTopo (fun i => if i = 1 then some 0 else if i = 2 then some 1 else none)
+def threeLevelTrace : List (Nat × Ev) :=
+  spawnOkTrace 0 ++ spawnOkTrace 1 ++ spawnOkTrace 2 ++
+  [(2, .hDrop), (2, .hCas true), (2, .tRet 9), (2, .tWrite), (2, .tCas false), (2, .tSetTid), (2, .tDropVal), (2, .tFreeTsm),
+   (2, .tFreeTls), (2, .tFreeBox), (2, .tMunmap), (2, .tExit), (2, .kExit),
+   (1, .tRet 5), (1, .tWrite), (1, .tCas true), (1, .hJoin), (1, .hLoad 1), (1, .hFwait true),
+   (1, .tFreeTls), (1, .tFreeBox), (1, .tMunmap), (1, .tExit), (1, .kExit), (1, .hLoad 0), (1, .hReadSlot), (1, .hFreeTsm),
+   (0, .tPanic), (0, .tPanicRead), (0, .tFreeTls), (0, .tCas true), (0, .tMunmap), (0, .tExit), (0, .kExit),
+   (0, .hJoin), (0, .hLoad 0), (0, .hReadSlot), (0, .hFreeTsm)]
+
+example : (runN genCfg threeLevelTopo St.init threeLevelTrace).map (fun s =>
+    (complete (s.inst 0) && complete (s.inst 1) && complete (s.inst 2), (s.inst 1).joinRes, (s.inst 0).joinRes,
+     (s.inst 0).bad || (s.inst 1).bad || (s.inst 2).bad, liveHeap (s.inst 0) + liveHeap (s.inst 1) + liveHeap (s.inst 2))) =
+    some (true, some (some 5), some none, false, 1) := by decide
 
 end TinyVerif.Thread
